@@ -205,6 +205,14 @@ def _rows(repo, col):
               "states, voltages and parameters are gathered with the same index array",
               f"the three arguments of init_state are gathered with different rows: states {r_s.short()}, "
               f"voltages {r_v.short()}, params {r_p.short()}", node=call)
+    # each gather reads the names of its own kind: states by the channel's state names, parameters by its parameter names
+    for lab, t_, want in (("states", st, "channel_states"), ("params", pp, "channel_params")):
+        q = T.find(t_, lambda x: x.op == "call" and x.name == "query_channel_states_and_params")
+        if q is None or len(q.args) < 2:
+            continue
+        names = {x.name for x in T.find_all(q.args[1], lambda x: x.op == "attr" and x.name in ("channel_states", "channel_params"))}
+        col.check(names == {want}, "R-C14-rows", fi, f"the {lab} handed to init_state are the channel's own {want}", f"names from channel.{want}",
+                  f"the {lab} argument is gathered with the names of {sorted(names)}", node=call)
     # the voltage column must be the voltage
     lv = T.find(vv, lambda x: _loc_parts(x) is not None)
     vcol = _loc_parts(lv)[2] if lv is not None else None
